@@ -70,6 +70,13 @@ def gen_world(rng: Rng) -> dict:
     for i in range(n):
         name = "f%d.sql" % i
         text = rng.choice(corpus("ansi"))
+        long_file = rng.chance(0.07)
+        if long_file:
+            # > 8 KiB so that anything which only looks at the head of a file shows
+            parts = []
+            while sum(len(p_) for p_ in parts) < rng.choice([8500, 9500, 12000]):
+                parts.append(rng.choice(corpus("ansi")).rstrip("\n") + "\n;\n\n")
+            text = "".join(parts).rstrip("\n;") + "\n"
         ninj = rng.choice([0, 1, 2, 3])
         inj = []
         for _ in range(ninj):
@@ -97,7 +104,7 @@ def gen_world(rng: Rng) -> dict:
                 pieces.append(("string", tok))
             else:
                 pieces.append(("block", tok))
-        body = head + "\n" + text
+        body = (head + "\n" + text) if not long_file else (text.rstrip("\n") + "\n" + head + "\n")
         for kind, tok in pieces:
             b = body.rstrip("\n")
             if kind == "tail":
@@ -139,7 +146,7 @@ def gen_world(rng: Rng) -> dict:
             protected = [p.replace(tok.encode("ascii"), bad) for p in protected]
         files["proj/" + name] = {"b64": b64(data), "mode": rng.choice([0o644, 0o600, 0o664])}
         meta["proj/" + name] = {"file_enc": file_enc, "newline": nl, "inj": inj, "corrupt": [[m[1].hex(), m[2]] for m in marks],
-                                "protected": [b64(p) for p in protected], "bad": [m[1].hex() for m in marks]}
+                                "protected": [b64(p) for p in protected], "bad": [m[1].hex() for m in marks], "long": long_file}
     core: dict[str, Any] = {"dialect": "ansi"}
     if enc_cfg != "autodetect":
         core["encoding"] = enc_cfg
@@ -189,6 +196,12 @@ def judge_file(rel: str, before: bytes, after: bytes, m: dict, enc: str, file_en
         # both byte orders are "utf-16" to sqlfluff: compare in the other order
         swapped = True
     nontrivial = False
+    for bom in (codecs.BOM_UTF8, codecs.BOM_UTF16_LE, codecs.BOM_UTF16_BE):
+        if before.startswith(bom):
+            fam = (codecs.BOM_UTF8,) if bom == codecs.BOM_UTF8 else (codecs.BOM_UTF16_LE, codecs.BOM_UTF16_BE)
+            if not after.startswith(fam):
+                return ("C11:bom-or-encoding-changed", "%s (detected %s): the file started with BOM %r, the rewritten file starts with %r" % (
+                    rel, enc, bom, after[:4])), True, "diff"
     for tok in prot:
         has_bad = any(b in tok for b in bads)
         t = tok
